@@ -2,6 +2,7 @@
 From Coq Require Import ZArith List Bool Lia.
 Import ListNotations.
 Require Import PV.Model.GraphAlg PV.Proofs.GraphSpec PV.Proofs.GraphBounded PV.Proofs.MisProofs.
+Require Import PV.Proofs.ParMisProofs PV.Proofs.ParMisTerm.
 
 (* serial maximal independent set: for EVERY symmetric graph in CSR form, of any size, and any
    three distinct codes: every vertex is decided, the set is independent and maximal *)
@@ -34,6 +35,35 @@ Proof.
     destruct i as [|[|[|i]]]; [| | |lia]; destruct j as [|[|[|j]]]; try lia;
       vm_compute in H; vm_compute; intuition (try discriminate).
 Qed.
+
+(* parallel maximal independent set (the kernel behind PMIS, MIS colouring and MIS seeds), EVERY symmetric
+   graph of any size, any three distinct codes:
+   (a) any weight type and any comparison: whenever the model, run without iteration limit, returns, every
+       vertex is decided, no two adjacent vertices are in the set and every other vertex has a neighbour in it;
+   (b) integer weights, ties broken by the vertex index as in the kernel: it always returns -- every pass
+       decides at least the largest undecided vertex, so the fuel n + 2 of the model suffices. *)
+Theorem C18_mis_parallel_partial_correctness : forall (N : nat) (Ap Aj : list Z),
+  (forall i, (0 <= i < Z.of_nat N)%Z -> forall j, In j (nbrs Ap Aj i) -> (0 <= j < Z.of_nat N)%Z) ->
+  (forall i j, (0 <= i < Z.of_nat N)%Z -> In j (nbrs Ap Aj i) -> In i (nbrs Ap Aj j)) ->
+  forall active c f : Z, active <> c -> active <> f -> c <> f ->
+  forall (W : Type) (wt : Wt W) (y : list W) (x0 : list Z),
+  length x0 = N -> (forall k, (0 <= k < Z.of_nat N)%Z -> get x0 k = active) ->
+  forall x Nn, mis_parallel (Z.of_nat N) Ap Aj wt active c f x0 y (-1)%Z = Some (x, Nn) ->
+  length x = N /\
+  (forall k, (0 <= k < Z.of_nat N)%Z -> get x k = c \/ get x k = f) /\
+  (forall i j, (0 <= i < Z.of_nat N)%Z -> get x i = c -> In j (nbrs Ap Aj i) -> j <> i -> get x j <> c) /\
+  (forall i, (0 <= i < Z.of_nat N)%Z -> get x i <> c -> exists j, In j (nbrs Ap Aj i) /\ j <> i /\ get x j = c).
+Proof. intros. eapply mis_parallel_partial_correctness; eauto. Qed.
+Print Assumptions C18_mis_parallel_partial_correctness.
+
+Theorem C18_mis_parallel_terminates : forall (N : nat) (Ap Aj : list Z),
+  (forall i, (0 <= i < Z.of_nat N)%Z -> forall j, In j (nbrs Ap Aj i) -> (0 <= j < Z.of_nat N)%Z) ->
+  (forall i j, (0 <= i < Z.of_nat N)%Z -> In j (nbrs Ap Aj i) -> In i (nbrs Ap Aj j)) ->
+  forall active c f : Z, active <> c -> active <> f -> c <> f ->
+  forall (y x0 : list Z), length x0 = N -> (forall k, (0 <= k < Z.of_nat N)%Z -> get x0 k = active) ->
+  exists r, mis_parallel (Z.of_nat N) Ap Aj WtZ active c f x0 y (-1)%Z = Some r.
+Proof. intros. eapply mis_parallel_terminates; eauto. Qed.
+Print Assumptions C18_mis_parallel_terminates.
 
 (* bounded theorems: ALL symmetric graphs on <= 4 vertices (with and without stored diagonal),
    all weight vectors over {0,1,2} (ties included), all seeds / centre sets; the models never
